@@ -62,6 +62,10 @@ CHECKS = {
    text='RepeatingEventBase.create_emsg_boxes / create_manifest_context executed for one arbitrary segment (symbolic start and duration) against an arbitrary schedule (symbolic start, count, event duration); the emitted ids must equal the scheduled ids inside the converted segment interval - an inductive step that covers every run of gapless segments; SCTE-35 encode/parse round trip over a bit-level model with CRC as an uninterpreted function',
    note='interval and the two timescales from small concrete catalogues (they multiply/divide symbolic values); at most 6 events per segment (unwinding assertion); moof/representation are stand-ins',
    ref='DESIGN.md 5 C14'),
+ 'C16': dict(
+   text='kernel-level claim: every option parser executed on arbitrary short ASCII text (symbolic characters; regular expressions and strptime decided by character-class partition) and on structured text assembled from each parser vocabulary, followed by the code that consumes the parsed value outside the handlers ValueError guard (DRM tuples, UTCTiming context, error-position translation); the synthetic-error counters as one step from an arbitrary session state plus request sequences from a fresh session; event scheduling with every value the event option parsers let through (unwinding bound = termination); the http-ntp time endpoint with a symbolic clock; Mp4Atom.load (eager and lazy) on fixture files with one box size field symbolic and the input cut inside a box header',
+   note='partial claim: the HTTP router, HTML/REST management endpoints, database state and Jinja rendering are outside; text is ASCII, free-form length 0..3 (quick); size-field windows and the session/counter domains are listed in evidence.bounds; "reported parse error" = ValueError / struct.error / EOFError / OSError; one known finding (emsg 32-bit field overflow) is region-labelled',
+   ref='DESIGN.md 5 C16'),
  'C19': dict(
    text='toIsoDuration / from_isodatetime / to_iso_datetime executed on symbolic values: durations N/den with N a solver variable (floats as exact rationals with rounding-error bounds), date-times with symbolic calendar fields, microsecond and UTC offset, text as token strings through the repository own regular expressions; timecode conversions as integer obligations',
    note='durations are rationals N/den for a catalogue of denominators, x <= 1e7 s, tolerance 0.5 ms + 4 ns; the millisecond field is concretised (1001-way bisection) because the code inspects its digits; tc.inv tolerance max(1 tick, 1 us)',
